@@ -3,6 +3,7 @@
 real functions returned, and coq/lib/Utf8.v cross-checked against CPython's codec."""
 import itertools
 import json
+import re
 
 import common
 
@@ -49,6 +50,27 @@ def wire(v):
     if isinstance(v, (list, tuple)):
         return '(' + ' '.join(map(wire, v)) + ')'
     return common.enc(v)
+
+
+def load_cy_uri():
+    """The Cython twin falcon/cyutil/uri (decode, parse_query_string) cannot be rebuilt offline; when a
+    built artifact sits in $VERIF_REPO it is loaded stand-alone (the staged copy excludes *.so) and
+    cross-checked against the same reference."""
+    import glob
+    import importlib.machinery
+    import importlib.util
+    import os
+    paths = sorted(glob.glob(os.path.join(common.REPO, 'falcon', 'cyutil', 'uri.*.so')))
+    if not paths:
+        return None
+    try:
+        loader = importlib.machinery.ExtensionFileLoader('falcon.cyutil.uri', paths[0])
+        spec = importlib.util.spec_from_file_location('falcon.cyutil.uri', paths[0], loader=loader)
+        m = importlib.util.module_from_spec(spec)
+        loader.exec_module(m)
+        return m
+    except Exception:  # noqa: BLE001 - built for another interpreter etc.
+        return None
 
 
 def exc_name(e):
@@ -204,10 +226,24 @@ def decode_part(ctx, uri, model, strings):
             meta.append((s, plus))
     outs = model.run_many(cases)
     corr = None
+    cy = load_cy_uri()
+    ctx.cov['cython_twin_decode'] = 'cross-checked' if cy else 'no built artifact in VERIF_REPO'
     for (s, plus), o in zip(meta, outs):
         r = call(uri.decode, s, plus)
         m = m_res_str(o[0])
         ref = common.wstr(o[1])
+        if cy is not None and not has_surrogate(s):
+            rc = call(cy.decode, s, plus)
+            ctx.count('cy-decode')
+            if rc != ('ok', ref):
+                # the one known deviation: with unquote_plus=False a '+' is handled like a '%'
+                as_pct = call(uri.decode, re.sub(r'\+(?=[0-9A-Fa-f]{2})', '%', s), False)
+                ctx.violation('decode-not-reference', {'fn': 'cyutil.uri.decode', 'input': s, 'unquote_plus': plus,
+                                                       'impl': rc, 'reference': ref,
+                                                       'explained_by': ('plus-as-percent' if not plus and rc == as_pct
+                                                                        else None),
+                                                       'clause': 'percent-decoding equals the reference decoder (Cython twin)'},
+                              key='cy-decode-ref')
         ctx.count('decode')
         ctx.note_case(('d', s, plus), r != ('ok', s))
         if has_surrogate(s):
